@@ -622,7 +622,7 @@ theorem range_ptr_live (st : St) (l : LExp) (loc t : Loc) (vs : Vals)
 
 /-- F08-7 `x := P{1,2}; p := &x; a := [2]int{0,0}; x = <-c (holding {5,6}); a[1] = <-c (holding 9)` — formerly the receive
     node took the place of the destination: the variable's cell was swapped (*p stale) and an element received nothing;
-    repaired by commit 177a151 of the repository (the received value is assigned like any other) -/
+    repaired by commit 212dc2e of the repository (the received value is assigned like any other) -/
 def progRecv : List Op :=
   [.s (.define 1 (.lit (.str (.cons (.int 1) (.cons (.int 2) .nil))))),
    .s (.define 2 (.addr (.var 1))),
@@ -637,12 +637,12 @@ theorem recv_assign_fixed :
     obsOf (runY share G0 St.empty progRecv) = ⟨["v1={9,6} v2=&{9,6} v3=[0,9]"], "ok"⟩ ∧
     obsOf (Spec.runGo G0 St.empty progRecv) = ⟨["v1={9,6} v2=&{9,6} v3=[0,9]"], "ok"⟩ := by decide
 
-/-- … and with the `src.action == aRecv` arm of cfg.go (the source before 177a151) the model reproduces both halves of F08-7 -/
+/-- … and with the `src.action == aRecv` arm of cfg.go (the source before 212dc2e) the model reproduces both halves of F08-7 -/
 theorem fact_recvAssignsValue_matters :
     obsOf (runY { share with recvAssignsValue := false } G0 St.empty progRecv) = ⟨["v1={5,6} v2=&{1,2} v3=[0,0]"], "ok"⟩ := by decide
 
 /-- F04-14 `for _, k := range []int{1,2,1} { v, ok := e.(int) /* holds 7 when k = 1, fails when k = 2 */; ps = append(ps, &v) }` —
-    formerly one v for all iterations and a stale v after a failure; repaired by commit 2fe0a18 of the repository -/
+    formerly one v for all iterations and a stale v after a failure; repaired by commit daee744 of the repository -/
 def progAssertLoop : List Op :=
   [.s (.define 1 (.mkslice .nil)),
    .s (.define 2 (.lit (.arr (.cons (.int 7) (.cons (.int 8) .nil))))),
